@@ -1,0 +1,17 @@
+//go:build !verif
+// +build !verif
+
+// Package simhook holds the verification hooks of the deterministic
+// simulator under /verif. Without the "verif" build tag every hook is an
+// empty function and the shipped behaviour is unchanged.
+package simhook
+
+// Yield marks a point inside a storage transaction where the simulator may
+// park the calling goroutine. No-op in normal builds.
+func Yield(point string) {}
+
+// Serve lets the simulator take over serving the pool's HTTP handler. In
+// normal builds it declines and the pool listens on its socket.
+func Serve(handler interface{}, pool interface{}, storeDriver interface{}, bind string) (bool, error) {
+	return false, nil
+}
